@@ -13,6 +13,7 @@ Cf(i, t, h, u, e) == [interval |-> i, timeout |-> t, hth |-> h, uth |-> u, expec
 MCConfigs == {Cf(1, 1, 2, 2, 0), Cf(1, 2, 1, 1, 200)}
 MCConfigs3 == MCConfigs \cup {Cf(2, 1, 1, 2, 204)}
 MCConfigs1 == {Cf(1, 1, 2, 2, 0)}
+MCConfigsMin == {Cf(1, 1, 1, 1, 0)}
 \* budgets: a negative number is "unlimited" (the configuration file cannot spell one)
 Unlimited == -1
 MCConfigsUth1 == {Cf(1, 2, 1, 1, 0)}
